@@ -86,6 +86,7 @@ type Server struct {
 	nextID int64
 	nColl  int
 	NPCh   int
+	Skew   bool
 	Prefix string
 	calls  []Call
 	packs  []*Pack
@@ -114,8 +115,13 @@ func New(prefix string, npch int) *Server {
 }
 
 // Start listens on a free loopback port and returns the URI for a create request.
-func (s *Server) Start() (string, error) {
-	lis, err := net.Listen("tcp", "127.0.0.1:0")
+func (s *Server) Start() (string, error) { return s.StartOn("127.0.0.1") }
+
+// StartOn listens on a free port of the given loopback address (any 127.x.y.z works on Linux). Harnesses that create many
+// servers in one process use a distinct address per server, so that a reused ephemeral port never yields an already used URI
+// (the code under test keys process-wide state by the target URI).
+func (s *Server) StartOn(host string) (string, error) {
+	lis, err := net.Listen("tcp", host+":0")
 	if err != nil {
 		return "", err
 	}
@@ -191,7 +197,12 @@ func (s *Server) addColl(db, name string, shards int, sch *schemapb.CollectionSc
 	for i, p := range parts {
 		c.Parts[p] = id*100 + 2 + int64(i)
 	}
-	start := s.nColl
+	// aligned placement by default (shard i on physical channel i, like a source with the same channel count);
+	// Skew rotates the first channel per collection so that collections sharing a source channel land on different target channels
+	start := 0
+	if s.Skew {
+		start = s.nColl
+	}
 	s.nColl++
 	for i := 0; i < shards; i++ {
 		pc := fmt.Sprintf("%s-dml_%d", s.Prefix, (start+i)%s.NPCh)
